@@ -227,6 +227,22 @@ pub fn tag_with_checksum(text: String) -> Vec<u8> {
     format!("{}*{:02X}", text, x).into_bytes()
 }
 
+/// a line that is malformed in a *late* field (empty payload, impossible fill count, missing or
+/// surplus field) while its header reads (n, k, id) and its checksum is right: an implementation
+/// that acts on the header before it has seen the whole line would leave a trace
+pub fn malformed_with_header(r: &mut Rng, n: u8, k: u8, id: Option<u8>) -> Vec<u8> {
+    let mut b = Build::simple(n, k, id, b"A", &uniq_payload(7300), 0);
+    match r.below(6) {
+        0 => b.payload.clear(),
+        1 => b.fill = "6".into(),
+        2 => b.fill = "9".into(),
+        3 => b.fill = String::new(),
+        4 => b.fill = "0,".into(),
+        _ => b.fill = "-1".into(),
+    }
+    b.line()
+}
+
 /// a line the statements say is inert between the fragments of an open group
 pub fn inert_between(r: &mut Rng, group_id: Option<u8>, group_n: u8, next_k: u8) -> (Vec<u8>, bool, &'static str) {
     match r.below(5) {
@@ -248,7 +264,23 @@ pub fn inert_between(r: &mut Rng, group_id: Option<u8>, group_n: u8, next_k: u8)
             b.cks = Some(nmea_ref::xor(&b.body()) ^ (1 << r.below(8)));
             (b.line(), r.bool(), cls)
         }
-        3 => (b"$GPGGA,123519,4807.038,N,01131.000,E,1,08,0.9,545.4,M,46.9,M,,*47".to_vec(), false, "malformed"),
+        3 => {
+            if r.bool() {
+                (b"$GPGGA,123519,4807.038,N,01131.000,E,1,08,0.9,545.4,M,46.9,M,,*47".to_vec(), false, "malformed")
+            } else {
+                // malformed behind a readable header: an opener with the group's id / another id / no
+                // id, the expected next fragment, an unfragmented line
+                let other = Some(group_id.map_or(4, |x| ((x as u16 + 3) % 10) as u8));
+                let (n, k, id) = match r.below(5) {
+                    0 => (group_n.max(2), 1, group_id),
+                    1 => (2, 1, other),
+                    2 => (9, 1, None),
+                    3 => (group_n, next_k, group_id),
+                    _ => (1, 1, None),
+                };
+                (malformed_with_header(r, n, k, id), r.bool(), "malformed-behind-header")
+            }
+        }
         _ => {
             // sequencing-rejected stranger: another id, half of the time with exactly the count
             // and number the open group expects next; ids that an implementation might confuse
